@@ -1,8 +1,8 @@
 (* C14 — a streamed request body reads exactly the body and keeps the connection in sync
-   (fixed-length bodies; chunked streams are decided by the oracle, see DESIGN). *)
+   (fixed-length and chunked bodies). *)
 From Coq Require Import String.
 From Coq Require Import List Strings.Byte NArith ZArith Bool Arith.
-Require Import Bytes Show Tables BodyStream BodyStreamProofs.
+Require Import Bytes Show Tables Chunk ChunkProofs BodyStream BodyStreamProofs ChunkStreamProofs.
 Import ListNotations.
 
 (* For every declared length n, every prefetched part p (at most n bytes), every continuation w of
@@ -24,6 +24,28 @@ Theorem C14_fixed_length_stream : forall n p w prog b eof s',
   /\ wire (skip_rest s') = skipn n T.
 Proof. exact stream_correct. Qed.
 Print Assumptions C14_fixed_length_stream.
+
+
+(* Chunked bodies.  For every list of chunks (non-empty, shorter than 16^15), everything `rest` that
+   follows the message on the connection, and every consumption program (any buffer sizes,
+   stopping anywhere): the bytes read are a prefix of the concatenated chunk data, EOF is
+   reported only at its end, no read fails, and skipRest then leaves the connection exactly at
+   the first byte after the message — wherever the handler stopped, also in the middle of a chunk. *)
+Theorem C14_chunked_stream : forall cs rest prog b eof s',
+  Forall chunk_ok cs ->
+  crun_reads prog (cfresh (enchunk cs ++ CRLF ++ rest)) = (b, eof, s') ->
+  (exists tail, concat cs = b ++ tail /\ (eof = true -> tail = [])) /\
+  exists s'', cskip_rest (length cs + 2) s' = Some s'' /\ cwire s'' = rest.
+Proof. exact chunked_stream_correct. Qed.
+Print Assumptions C14_chunked_stream.
+
+Example C14_chunked_nonvacuous :
+  let w := enchunk [B "abc"; B "de"] ++ CRLF ++ B "GET /next" in
+  let '(b, eof, s') := crun_reads [2; 2] (cfresh w) in
+  b = B "abc" /\ eof = false /\
+  match cskip_rest 4 s' with Some s'' => cwire s'' = B "GET /next" | None => False end /\
+  stream_script [B "chunked"; w; B "2,9"] = B "6162;636465<EOF> | 474554202f6e657874".
+Proof. vm_compute. repeat split; reflexivity. Qed.
 
 Example C14_nonvacuous :
   let '(b, eof, s') := run_reads [(3, 1); (100, 2); (100, 100)] (fresh 6 (B "ab") (B "cdefGET /next")) in
